@@ -74,6 +74,7 @@ func (d c04Digest) toks() string {
 type c04Op struct {
 	Kind    string // upload create copy delete prune plant corrupt dashify litter
 	File    string // litter: file name inside blobs/
+	Path     []string // litterman: path components below manifests/ (last one ends in "@" for a dangling symlink)
 	Reg      *c04Reg // pull: what the registry serves for the name (nil: it has no such model)
 	NoStream bool  // create: "stream": false (the waitForStream path; only generated when N1 is repaired)
 	D       c04Digest
@@ -167,6 +168,12 @@ func (o c04Op) line() string {
 		return "prune"
 	case "litter":
 		return "litter " + zzverif.Hex([]byte(o.File)) + " " + zzverif.Hex(o.Content)
+	case "litterman":
+		out := "litterman " + strconv.Itoa(len(o.Path))
+		for _, c := range o.Path {
+			out += " " + zzverif.Hex([]byte(c))
+		}
+		return out
 	case "pull":
 		if o.Reg == nil {
 			return "pull " + o.Name.toks() + " missing"
@@ -260,6 +267,10 @@ func c04ParseOp(s string) c04Op {
 	case "litter":
 		o.File = string(zzverif.Unhex(p.next()))
 		o.Content = zzverif.Unhex(p.next())
+	case "litterman":
+		for i, k := 0, p.int(); i < k; i++ {
+			o.Path = append(o.Path, string(zzverif.Unhex(p.next())))
+		}
 	case "pull":
 		o.Name = p.name()
 		k := p.next()
@@ -449,6 +460,20 @@ func (s *c04Server) exec(o c04Op) string {
 		return "ok"
 	case "pull":
 		return s.pull(o)
+	case "litterman":
+		full := filepath.Join(append([]string{s.dir, "manifests"}, o.Path...)...)
+		if err := os.MkdirAll(filepath.Dir(full), 0o755); err != nil {
+			panic(err)
+		}
+		os.Remove(full)
+		if strings.HasSuffix(full, "@") {
+			if err := os.Symlink("nowhere-to-be-found", full); err != nil {
+				panic(err)
+			}
+		} else if err := os.WriteFile(full, []byte("stray"), 0o644); err != nil {
+			panic(err)
+		}
+		return "ok"
 	case "litter":
 		dir := filepath.Join(s.dir, "blobs")
 		if err := os.MkdirAll(dir, 0o755); err != nil {
@@ -666,6 +691,7 @@ type c04Blob struct {
 }
 
 type c04Snap struct {
+	tree   []string // every directory ("a/b/") and every stray non-manifest entry ("?a/b/x") below manifests/
 	mans   []c04Man
 	blobs  []c04Blob
 	listed []c04Name
@@ -720,6 +746,9 @@ func (s *c04Server) snapshot() *c04Snap {
 			continue
 		}
 		rel, _ := filepath.Rel(filepath.Join(s.dir, "manifests"), p)
+		if !model.ParseNameFromFilepath(rel).IsValid() {
+			continue // a stray file at manifest depth ("bad manifest name"): listed in the tree, not a manifest
+		}
 		parts := strings.Split(rel, string(filepath.Separator))
 		raw, err := os.ReadFile(p)
 		if err != nil {
@@ -744,6 +773,24 @@ func (s *c04Server) snapshot() *c04Snap {
 		}
 		sn.blobs = append(sn.blobs, cb)
 	}
+	root := filepath.Join(s.dir, "manifests")
+	filepath.Walk(root, func(path string, info os.FileInfo, err error) error {
+		if err != nil || path == root {
+			return nil
+		}
+		rel, _ := filepath.Rel(root, path)
+		rel = filepath.ToSlash(rel)
+		switch {
+		case info.IsDir():
+			sn.tree = append(sn.tree, rel+"/")
+		case strings.Count(rel, "/") == 3 && info.Mode().IsRegular() && model.ParseNameFromFilepath(filepath.FromSlash(rel)).IsValid():
+			// a manifest
+		default:
+			sn.tree = append(sn.tree, "?"+rel)
+		}
+		return nil
+	})
+	sort.Strings(sn.tree)
 	display, ok := s.list()
 	sn.listed, sn.listOK = sn.resolveListed(display), ok
 	return sn
@@ -800,7 +847,7 @@ func (sn *c04Snap) obs(result string) string {
 	if !sn.listOK {
 		lst = "!list-failed"
 	}
-	return "r=" + result + ";l=" + lst + ";m=" + strings.Join(ms, ",") + ";b=" + strings.Join(bs, ",")
+	return "r=" + result + ";l=" + lst + ";m=" + strings.Join(ms, ",") + ";b=" + strings.Join(bs, ",") + ";t=" + strings.Join(sn.tree, ",")
 }
 
 // ---------------------------------------------------------------- content pools
@@ -1192,6 +1239,18 @@ func (r *c04Run) apply(o c04Op) {
 		r.out.Count("prune_checked")
 	}
 
+	// ---- L2: a completed delete runs PruneDirectory too: no empty directory is left under manifests/
+	if o.Kind == "delete" && result == "h200" {
+		filepath.Walk(filepath.Join(r.srv.dir, "manifests"), func(path string, info os.FileInfo, err error) error {
+			if err == nil && info.IsDir() && path != filepath.Join(r.srv.dir, "manifests") {
+				if ents, e := os.ReadDir(path); e == nil && len(ents) == 0 {
+					r.l2("prune-exact", "empty-directory after delete "+strings.TrimPrefix(path, r.srv.dir))
+				}
+			}
+			return nil
+		})
+	}
+
 	// ---- L2: no two listed models differ only by letter case (pairs that an API operation made; a pair
 	// that the non-API `plant` put there itself is the injected legacy condition, not a failure)
 	if o.Kind != "plant" && o.Kind != "corrupt" && o.Kind != "dashify" {
@@ -1396,6 +1455,27 @@ func (g *c04Gen) uploadOp() c04Op {
 	return o
 }
 
+// litterManOp plants a stray regular file or a dangling symlink somewhere below manifests/: at the root, in a
+// host / namespace / model directory (existing or new), or next to the manifests of a model.  Names are never
+// valid name parts of the universe, so no request path leads through them.
+func (g *c04Gen) litterManOp(sn *c04Snap) c04Op {
+	var dir []string
+	if sn != nil && len(sn.mans) > 0 && g.r.Chance(2, 3) {
+		n := sn.mans[g.r.Intn(len(sn.mans))].name
+		dir = []string{n.Host, n.Ns, n.Model}
+	} else {
+		n := g.name()
+		dir = []string{n.Host, n.Ns, n.Model}
+	}
+	depth := g.r.Intn(4) // 0: manifests/ itself … 3: inside a model directory (manifest depth)
+	name := zzverif.Pick(g.r, []string{".DS_Store", ".README", "-stray", ".zz-file-where-a-directory-is-expected"})
+	if depth < 3 && g.r.Chance(1, 4) {
+		name = ".dangling@" // a dangling symlink (never at manifest depth: Manifests stats every entry there)
+	}
+	g.outCount(fmt.Sprintf("litterman_depth%d", depth))
+	return c04Op{Kind: "litterman", Path: append(append([]string{}, dir[:depth]...), name)}
+}
+
 // litterOp puts a file into blobs/ whose name is not (or not quite) a blob name: every class of name that
 // PruneLayers / fixBlobs distinguish.
 func (g *c04Gen) litterOp(sn *c04Snap) c04Op {
@@ -1544,6 +1624,8 @@ func (g *c04Gen) next0(sn *c04Snap) c04Op {
 		if n, ok := g.existing(sn, false); ok {
 			return c04Op{Kind: "dashify", Name: n}
 		}
+	case g.class == 5 && g.r.Chance(1, 8):
+		return g.litterManOp(sn)
 	case g.class == 5 && g.r.Chance(1, 5):
 		return g.litterOp(sn)
 	case g.class == 5 && g.r.Chance(1, 6):
@@ -1852,6 +1934,14 @@ func TestVerifC04(t *testing.T) {
 			{Kind: "pull", Name: nm("library", "q"), Reg: &c04Reg{Layers: []c04RegLayer{{Media: "M", Content: g1}}, Config: c04RegLayer{Media: "C", Content: c04Config("gemma", 2)}}},
 			{Kind: "pull", Name: nm("library", "p"), Reg: &c04Reg{Layers: []c04RegLayer{{Media: "M", Content: g1}, {Media: "S", Content: pool.syss[0]}}, Config: c04RegLayer{Media: "C", Content: c04Config("gemma", 2), Served: c04Config("corrupted", 9)}}},
 			{Kind: "pull", Name: nm("library", "r")}, {Kind: "delete", Name: nm("library", "q")}, {Kind: "prune"}},
+		// stray files below manifests/: what delete and the start-up prune leave of the directory tree
+		{up(g0), mk(nm("library", "a"), false, g0), mk(nm("other", "b"), false, g0),
+			{Kind: "litterman", Path: []string{".DS_Store"}}, {Kind: "litterman", Path: []string{"registry.ollama.ai", "other", ".README"}},
+			{Kind: "copy", Src: nm("library", "nosuch"), Dst: c04Name{"example.com", "x", "y", "latest"}},
+			{Kind: "delete", Name: nm("library", "a")}, {Kind: "delete", Name: nm("other", "b")},
+			{Kind: "litterman", Path: []string{"h2", ".dangling@"}}, mk(nm("library", "c"), false, g0),
+			{Kind: "litterman", Path: []string{"registry.ollama.ai", "library", "c", ".DS_Store"}}, {Kind: "prune"},
+			{Kind: "delete", Name: nm("library", "c")}, {Kind: "prune"}},
 		// N3: a pull that is resolved to a model under a differently-cased default namespace
 		{up(g0), mk(c04Name{"registry.ollama.ai", "LiBRARy", "foo", "latest"}, false, g0),
 			{Kind: "pull", Name: nm("library", "foo"), Reg: &c04Reg{Layers: []c04RegLayer{{Media: "M", Content: g0}}, Config: c04RegLayer{Media: "C", Content: c04Config("llama", 1)}}}},
